@@ -460,7 +460,7 @@ PROPS = {
         ],
         rule=RAWDB_RULE,
         assumptions=["Layout accessors pending_holes/start_to_reserved exposed by the verif_hooks feature (read-only)"],
-        level_text="Lean 4 theorems, unbounded in list length and sizes, for the allocator: promotion of deferred holes keeps the free list positive, pairwise disjoint and merged, covers exactly old free bytes + promoted bytes and stays disjoint from everything the inputs were disjoint from (C02_promote); hole split (C02_split); best fit (C02_best_fit); placement reuses free space and does not grow the file whenever an adequate hole exists, for relocation and for creation (C02_place_reuses, C02_place_end, C02_create_reuses); the file growth rule (C02_growth); flush leaves no deferred hole (C02_flush_promotes). The whole-database invariant over complete histories is proved too (Props/C02Run.lean, Lemmas/Layout*.lean, AllocCnt.lean): LInv — no byte of the file in two extents (region reservations, relocation targets, holes, pending holes), all extents positive, start map = slots — is preserved by EVERY operation of the model from ANY state satisfying it (metadata/data-only operations keep the layout view; remove/retain; flush with promotion and merging; compact; the three growing paths of write_with incl. is_last_anything ⇒ nothing claimed behind, and relocation with its reservation; create), hence C02_history_partial: after every sequence of operations from the empty database without a panicking operation and without reopen, no byte belongs to two extents, everything claimed ends at or before Layout::len, and two live regions never share a byte. The accounting half is proved over the same histories (Lemmas/LayoutAcc.lean, C02_history_accounted): the claimed bytes always form an initial segment — every operation either leaves the number of extents covering each byte unchanged or adds one extent exactly on top of everything claimed (creation / relocation at Layout::len, the last region growing in place) — so every byte below Layout::len belongs to EXACTLY one region, reservation, free extent or pending free extent; with C01_run_inv every region's contents fit its reservation. Open: reopen (Layout::from over the metadata file), page alignment and 'inside the data file' as whole-history invariants — these are checked by the harness's extent checker on the real crate after every request.",
+        level_text="Lean 4 theorems, unbounded in list length and sizes, for the allocator: promotion of deferred holes keeps the free list positive, pairwise disjoint and merged, covers exactly old free bytes + promoted bytes and stays disjoint from everything the inputs were disjoint from (C02_promote); hole split (C02_split); best fit (C02_best_fit); placement reuses free space and does not grow the file whenever an adequate hole exists, for relocation and for creation (C02_place_reuses, C02_place_end, C02_create_reuses); the file growth rule (C02_growth); flush leaves no deferred hole (C02_flush_promotes). The whole-database invariant over complete histories is proved too (Props/C02Run.lean, Lemmas/Layout*.lean, AllocCnt.lean): LInv — no byte of the file in two extents (region reservations, relocation targets, holes, pending holes), all extents positive, start map = slots — is preserved by EVERY operation of the model from ANY state satisfying it (metadata/data-only operations keep the layout view; remove/retain; flush with promotion and merging; compact; the three growing paths of write_with incl. is_last_anything ⇒ nothing claimed behind, and relocation with its reservation; create), hence C02_history_partial: after every sequence of operations from the empty database without a panicking operation and without reopen, no byte belongs to two extents, everything claimed ends at or before Layout::len, and two live regions never share a byte. The accounting half is proved over the same histories (Lemmas/LayoutAcc.lean, C02_history_accounted): the claimed bytes always form an initial segment — every operation either leaves the number of extents covering each byte unchanged or adds one extent exactly on top of everything claimed (creation / relocation at Layout::len, the last region growing in place) — so every byte below Layout::len belongs to EXACTLY one region, reservation, free extent or pending free extent; with C01_run_inv every region's contents fit its reservation. Page alignment is a whole-history theorem too (Lemmas/LayoutAlign.lean, C02_history_aligned: every extent starts on a page boundary and is a whole number of pages long, and so is Layout::len). Open: reopen (Layout::from over the metadata file) and 'inside the data file' as a whole-history invariant — these are checked by the harness's extent checker on the real crate after every request.",
         level_note="Trusted: Lean kernel + standard axioms; hand-written model (Model/Rawdb.lean) tied to /repo by differential run + extractor; the guarded read-only Layout accessors. Modelled rather than verified: layout.rs, region.rs write_with, lib.rs create/set_min_len/flush.",
         technique="Lean 4 proof of allocator invariants (induction over the pending-hole list) + full-layout lock-step correspondence + independent invariant checker on the real layout",
     ),
@@ -539,6 +539,9 @@ PROPS = {
         lean="AnyDB.Props.C17",
         runs=[
             Run("codec", "decoders", [], (160, 60), (3000, 120), proj_all, ["C17", "panic"], codec_features),
+            # the change-record decoder (base/change/cursor.rs) is not public: it is driven through rollback over records whose
+            # length fields were damaged on disk (values up to 2^63 and u64::MAX: size computations must refuse, not wrap or panic)
+            Run("vec", "change-records", ["--mode", "faults"], (84, 50), (1200, 140), proj_vec, ["C16", "C17", "panic"], vec_features),
         ],
         rule=CODEC_RULE,
         assumptions=["Rust's String::from_utf8 accepts exactly the well-formed sequences of Unicode Table 3-7 (the model's validator; differential-tested)", "Page and HeaderInner decoders are not public: their byte layout is proved here and exercised through the vec engine (C03/C07) and import (C14)"],
@@ -650,9 +653,12 @@ PROPS = {
         lean_extra=["AnyDB.Props.C12Run"],
         runs=[
             Run("crash", "compact", ["--mixes", "3"], (64, 30), (1000, 70), proj_events, ["C12", "C05", "panic"], crash_features, driver_engine="rawdb"),
+            # "whatever other threads are writing meanwhile": compact as thread A parked at every lock event, and compact run by
+            # thread B while A is parked inside each of its 13 operations (the directed schedules of C10, restricted to compact)
+            Run("c10", "compact-schedules", ["--only", "compact"], (16, 3), (16, 1), proj_after_L, ["C10", "panic"], c10_features, clean=False),
         ],
         rule=RAWDB_RULE + "; same crash-point enumeration as C05 with compact among the requests (regions with partially used reserves, freed and coalesced extents, extents freed but not yet flushed)",
-        assumptions=["FALLOC_FL_PUNCH_HOLE|KEEP_SIZE zeroes the range and keeps the length", "rayon's parallel loop over disjoint ranges behaves like the sequential loop of the model", "interleavings of compact with a concurrent writer are not covered here (design finding F16 is a C10-family race; see DESIGN.md)"],
+        assumptions=["FALLOC_FL_PUNCH_HOLE|KEEP_SIZE zeroes the range and keeps the length", "rayon's parallel loop over disjoint ranges behaves like the sequential loop of the model", "interleavings of compact with ONE concurrent thread are covered by directed schedules at lock-event granularity (the c10 engine restricted to compact; finding F16 is listed); more than two threads are not"],
         level_text="Lean 4 theorems on the model of compact = flush; punch_holes. For EVERY reachable state (Props/C12Run.lean, built on C01's refinement and C02's layout invariant): C12_compact_quiet — from any state of the invariant compact keeps every slot's metadata (name, start, length, reservation), does not shrink the file and keeps every byte of every live region, because the punched ranges (reserve tails beyond ceil_page(len), free extents) are apart from every region's contents; C12_compact_history — after every history (no reopen, no panic) a compact leaves what every region shows and every placement exactly as it was and re-establishes the invariant. Per-step laws: punch_holes changes no slot, no layout map and not the file length (C12_meta_unchanged, C12_compact_len); every byte range disjoint from all candidate ranges (reserve tails and free extents) reads the same before and after (C12_frame, by induction over both loops); a region's tail candidate starts at or above the end of its contents on a page boundary (C12_tail_above_data); compact flushes first and, by C05_order, extents are promoted — become candidates — only after the metadata sync that made their release durable (C12_order). On the real code the crash engine checks before/after every compact: bytes, length, placement of all live regions and the file length unchanged; every punched range inside a (coalesced) free extent or a reserve tail; crash points inside compact satisfy the C05 oracles.",
         level_note="Trusted: as C05. The race of compact against a writer extending a region into its reserve (F16 of the design reading) needs a thread schedule and is NOT decided by this check; sequential histories only.",
         technique="Lean 4 proof (frame of hole punching over the candidate loops) + before/after and crash-image validation on the real compact",
